@@ -11,10 +11,25 @@ pub struct Record {
     pub pos: usize,
     /// ALT alleles; empty = monomorphic (`.`)
     pub alts: Vec<&'static str>,
-    /// one GT string per sample, e.g. "0/1", "./.", "1|2", "0", "0/0/1", "."
+    /// one GT string per sample, e.g. "0/1", "./.", "1|2", "0", "0/0/1", "."; two conventions mark
+    /// records without genotypes: every entry `NO_FORMAT` = a record without any FORMAT field
+    /// (VCF `.` columns, BCF n_fmt = 0), every entry `NO_GT_KEY` = FORMAT holds only the integer
+    /// field XF (no GT key)
     pub gts: Vec<String>,
     /// add an INFO field and a second FORMAT field
     pub decorated: bool,
+}
+
+pub const NO_FORMAT: &str = "~";
+pub const NO_GT_KEY: &str = "~XF";
+
+impl Record {
+    pub fn no_format(&self) -> bool {
+        !self.gts.is_empty() && self.gts.iter().all(|g| g == NO_FORMAT)
+    }
+    pub fn no_gt_key(&self) -> bool {
+        !self.gts.is_empty() && self.gts.iter().all(|g| g == NO_GT_KEY)
+    }
 }
 
 #[derive(Clone, Debug, PartialEq)]
@@ -92,6 +107,19 @@ pub fn vcf_record_line(cs: &CallSet, r: &Record) -> String {
     } else {
         r.alts.join(",")
     };
+    if r.no_format() || r.no_gt_key() {
+        let mut s = format!("{}\t{}\t.\tA\t{}\t.\t.\t{}\t{}", cs.contigs[r.chrom], r.pos, alt, if r.decorated { "XI=5" } else { "." }, if r.no_format() { "." } else { "XF" });
+        for i in 0..r.gts.len() {
+            s.push('\t');
+            if r.no_format() {
+                s.push('.');
+            } else {
+                s.push_str(&(i % 7 + 1).to_string());
+            }
+        }
+        s.push('\n');
+        return s;
+    }
     let mut s = format!(
         "{}\t{}\t.\tA\t{}\t.\t.\t{}\t{}",
         cs.contigs[r.chrom],
@@ -176,7 +204,7 @@ pub fn bcf_record(r: &Record, n_samples: usize) -> Vec<u8> {
     let n_allele: u16 = 1 + r.alts.len() as u16;
     shared.extend_from_slice(&n_info.to_le_bytes());
     shared.extend_from_slice(&n_allele.to_le_bytes());
-    let n_fmt: u32 = if r.decorated { 2 } else { 1 };
+    let n_fmt: u32 = if r.no_format() { 0 } else if r.no_gt_key() { 1 } else if r.decorated { 2 } else { 1 };
     let ns = (n_samples as u32 & 0x00ff_ffff) | (n_fmt << 24);
     shared.extend_from_slice(&ns.to_le_bytes());
     typed_string("", &mut shared); // ID
@@ -190,6 +218,21 @@ pub fn bcf_record(r: &Record, n_samples: usize) -> Vec<u8> {
         shared.extend_from_slice(&[0x11, 5]); // value 5
     }
     let mut indiv = Vec::new();
+    if r.no_format() || r.no_gt_key() {
+        if r.no_gt_key() {
+            indiv.extend_from_slice(&[0x11, 3]); // key XF (idx 3)
+            indiv.push(0x11); // one int8 per sample
+            for i in 0..n_samples {
+                indiv.push((i % 7 + 1) as u8);
+            }
+        }
+        let mut out = Vec::new();
+        out.extend_from_slice(&(shared.len() as u32).to_le_bytes());
+        out.extend_from_slice(&(indiv.len() as u32).to_le_bytes());
+        out.extend_from_slice(&shared);
+        out.extend_from_slice(&indiv);
+        return out;
+    }
     // GT
     indiv.extend_from_slice(&[0x11, 2]); // key GT (idx 2)
     let parsed: Vec<Vec<(Option<u32>, bool)>> = r.gts.iter().map(|g| parse_gt(g)).collect();
